@@ -161,6 +161,14 @@ func checkC08(c *Ctx) {
 		c.Case(fmt.Sprintf("long:%d:%s", n, string(jobs[i].Prog)), true)
 		c.Count("long_history_runs", 1)
 	})
+	// whole generated programs with real values (functions, recursion, by-value arguments, returns from
+	// loops): re-executed by TLC on JqCore (spec/Trace_Core.tla)
+	ncore := 120
+	if c.Thorough() {
+		ncore = 2000
+	}
+	checkCore(c, ncore, 8)
+
 	c.Set("exhaustive", true)
 	c.Set("bounds", map[string]any{"BodyLen": bodyLen, "ArgSets": argSets, "ParamSets": paramSets, "Fuel": fuel, "long_inputs": ns})
 	c.Set("rule", "every fn1 body of BodyLen statements from a 24-statement pool x parameter lists x argument lists x condition outcomes, run over 2 elements (all behaviours, TLC BFS); a sample of the successful ones re-run over thousands of elements; every case is non-trivial (it performs at least one call); distinct by program+outcomes")
